@@ -22,7 +22,7 @@ TRUSTED = [
     "Rust harness harness/src/c11.rs (public API of sip-ua; hooks not needed)",
 ]
 ASSUMPTIONS = [
-    "AtomicU32::fetch_add is atomic: concurrent creators are a sequence of increments",
+    "AtomicU32::fetch_add is atomic: concurrent creators are a sequence of increments (the theorem assumes it; the harness exercises it with real OS threads, which is a test, not a proof)",
     "the random local tag and initial CSeq of a UAS dialog are inputs (the harness overwrites the counter through the public field)",
 ]
 RULE = ("roles {UAS, UAC} x 0..4 Record-Route entries x tags/Call-IDs/Contacts (with port and URI parameters) x INVITE CSeq and counter "
@@ -53,6 +53,8 @@ def gen_cases(rng, tier):
                 ops.append("Q:" + rng.choice(METHODS))
             elif r < 0.75:
                 ops.append("J:%d" % rng.randrange(2, 7))
+            elif r < 0.78 and c0 < 2 ** 31 - 10 ** 6 and icseq < 2 ** 31 - 10 ** 6:
+                ops.append("T:%d:%d" % (rng.choice([4, 8]), 20000))
             elif role == "S":
                 ops.append("R:%d" % rng.choice([100, 101, 180, 183, 199, 200, 202, 299, 300, 302, 404, 485, 486, 603]))
             else:
@@ -71,7 +73,7 @@ def oracle(case, impl):
     icseq, c0 = int(case[10]), int(case[11])
     ops = [o for o in case[12].split(",") if o]
     outs = impl.split(";Q ")  # not used; parse sequentially below
-    obs = re.split(r";(?=[QJR] )", impl)
+    obs = re.split(r";(?=[QJRT] )", impl)
     if len(obs) != len(ops):
         return ["malformed observation: %d outcomes for %d operations" % (len(obs), len(ops))]
     lt = "LT" if role == "S" else local_tag
@@ -94,6 +96,14 @@ def oracle(case, impl):
             want = "J " + ",".join(str(nxt + j) for j in range(n))
             if o != want:
                 return ["concurrently created CSeq numbers %s, expected %s" % (o, want)]
+            last = nxt + n - 1
+            nxt += n
+        elif kind == "T":
+            th, it = [int(x) for x in arg.split(":")]
+            n = th * it
+            want = "T min=%d max=%d n=%d distinct=%d increasing=true" % (nxt, nxt + n - 1, n, n)
+            if o != want:
+                return ["requests created from %d threads: %s, expected %s (CSeq must be unique and strictly increasing)" % (th, o, want)]
             last = nxt + n - 1
             nxt += n
         elif kind == "R":
